@@ -5,6 +5,7 @@ import (
 	"fmt"
 	"os"
 	"path/filepath"
+	"strings"
 	"time"
 )
 
@@ -57,6 +58,16 @@ func cmdRun(args []string) int {
 	for _, m := range st.Mismatches {
 		res.Violations = append(res.Violations, m)
 	}
+	// classify each disagreement: does it concern an observable the property determines?
+	k := 0
+	for i := range st.cases {
+		if st.impl[i] != st.model[i] && st.impl[i] != "model-only" {
+			if k < len(res.Violations) {
+				res.Violations[k].Kind = mismatchKind(prop, st.impl[i], st.model[i])
+			}
+			k++
+		}
+	}
 	if st.Hangs > 0 {
 		res.Notes = append(res.Notes, fmt.Sprintf("%d cases hung or crashed the worker", st.Hangs))
 	}
@@ -73,6 +84,47 @@ func cmdRun(args []string) int {
 	fmt.Printf("run %s %s: evaluations=%d distinct=%d mismatches=%d hangs=%d wall=%.1fs\n", prop, tier,
 		st.Evaluations, st.Distinct, st.NMismatch, st.Hangs, res.WallS)
 	return 0
+}
+
+// functional properties: the property determines the observable, so implementation ≠ proved model
+// on it is a failing input for the property itself
+var functionalProps = map[string]bool{"C02": true, "C03": true, "C04": true, "C12": true, "C13": true, "C14": true,
+	"C15": true, "C16": true, "C17": true, "C18": true, "C20": true}
+
+// mismatchKind: "property" if the two result lines differ on what the property constrains.
+func mismatchKind(prop, impl, model string) string {
+	if strings.HasPrefix(impl, "panic") || strings.HasPrefix(impl, "hang") || strings.HasPrefix(impl, "crash") {
+		if prop == "C01" {
+			return "property"
+		}
+	}
+	if !functionalProps[prop] {
+		return "correspondence"
+	}
+	a, ok1 := parseDecRes(impl)
+	b, ok2 := parseDecRes(model)
+	if !ok1 || !ok2 {
+		// not a decode result line (checksum rows, coordinate values, strings, …): the whole line is the observable
+		return "property"
+	}
+	okA, okB := a.tag == "ok", b.tag == "ok"
+	switch prop {
+	case "C04": // accept / reject verdicts only
+		if okA != okB {
+			return "property"
+		}
+		return "correspondence"
+	case "C18": // values and accumulator state
+		if okA != okB || a.dump != b.dump || a.accu != b.accu {
+			return "property"
+		}
+		return "correspondence"
+	default: // accepted or not, and the decoded content; not the error class, not the bytes pulled
+		if okA != okB || a.dump != b.dump {
+			return "property"
+		}
+		return "correspondence"
+	}
 }
 
 // regressionCases loads /verif/corpus/<prop>.cases (one case line per line).
